@@ -199,6 +199,50 @@ def asset_words(f, rng, k):
     return ws if len(ws) <= k else ws[:k // 2] + rng.sample(ws[k // 2:], k // 2)
 
 
+def data_cuts(f, window):
+    """the image with its DATA REGION cut to every length inside the last `window` bytes - also lengths = 1, 2, 3 (mod 4) - and all
+    header fields (file size, data size, pointer and label tables) kept consistent, so that BinArchive::from_bytes accepts the file
+    and it is the record reader that runs into the end of the data (seed C05-9: read_f32 validating 2 bytes instead of 4)"""
+    p = R.parse_archive(f)
+    if p is None:
+        return []
+    raw = bytearray(p.data)
+    for c in p.strings:
+        raw[c:c + 4] = bytes(4)
+    out = []
+    n = len(raw)
+    for cut in range(max(0, n - window), n):
+        strings = {c: s for c, s in p.strings.items() if c + 4 <= cut}
+        labels = [(a, nm) for (a, nm) in p.labels if a <= cut]
+        out.append(R.write_archive(bytes(raw[:cut]), strings, labels))
+    return out
+
+
+def tail_specs(rng):
+    """asset binaries whose LAST record ends with each field type: every typed field (colour = 4 x u8, f32, u32) alone and behind
+    other fields, a base string, an extended string, the name cell only (short and long form)"""
+    files = []
+    for j in range(R.N_TYPED):
+        for before in ([], [0, 5], [31, 32]):
+            sp = R.empty_spec()
+            sp["name"] = b"n"
+            for i in before:
+                sp["strs"][i] = b"s"
+            if before and j > 0:
+                sp["typed"][j - 1] = (True, 0x01020304)
+            sp["typed"][j] = (True, rng.choice([0x3F800000, 0xFFFFFFFF, 0x7FA00001, 1]))
+            first = R.empty_spec()
+            first["name"] = b"first"
+            files.append(R.encode_asset_image(rng.getrandbits(32), [first, sp] if rng.random() < 0.5 else [sp]))
+    for strs in ([], [3], [30], [31], [32], [0, 32]):
+        sp = R.empty_spec()
+        sp["name"] = rng.choice([None, b"n"])
+        for i in strs:
+            sp["strs"][i] = b"tail"
+        files.append(R.encode_asset_image(0, [sp], force_long=bool(strs) and rng.random() < 0.3))
+    return files
+
+
 def total_cases(rng, tier):
     quick = tier == "quick"
     cases = []
@@ -242,6 +286,13 @@ def total_cases(rng, tier):
         step = 1 if (not quick or len(f) < 120) else 3
         for (what, g) in mutations(rng, f, quick, asset_words(f, rng, 12 if quick else 100), step):
             add("asset", g, what)
+    # (d) the data region cut inside the last record, headers consistent (every length mod 4, every field type at the tail)
+    for f in tail_specs(rng):
+        for g in data_cuts(f, 14 if quick else 40):
+            add("asset", g, "data-cut")
+    for f in sample_aset_files(rng, 2 if quick else 10):
+        for g in data_cuts(f, 14 if quick else 60):
+            add("aset", g, "data-cut")
     pa = os.path.join(TESTDIR, "FE14Aset_Test.bin")
     if os.path.exists(pa):
         f = open(pa, "rb").read()
@@ -345,7 +396,7 @@ def total_agree(case, impl_out, model_out, profile):
 def total_nontrivial(case, impl_out):
     """the layered reader was reached with something to read, or the container was rejected for a planted field"""
     st = case.stream.split("-", 1)[1]
-    return "re=ok" in impl_out or st.startswith(("field", "wrapping", "structured", "game-field", "game-wrapping"))
+    return "re=ok" in impl_out or st.startswith(("field", "wrapping", "structured", "game-field", "game-wrapping", "data-cut"))
 
 
 def total_shrink(case):
